@@ -1296,8 +1296,10 @@ f_sort_array (void)
         process_efun_callback (1, &ftc, F_SORT_ARRAY);
 
         tmp = copy_array (tmp);
+        push_refed_array (tmp); /* the copy must not be lost when the comparison function raises an error */
         quickSort ((char *) tmp->item, tmp->size, sizeof (tmp->item),
                    sort_array_cmp);
+        sp--; /* take the copy back */
         sort_array_ftc = old_ptr;
         break;
       }
